@@ -100,6 +100,36 @@ def find_nodes(g: CFG, pred: Callable[[ast.AST], bool]) -> List[Tuple[Node, ast.
     return out
 
 
+SELECTOR_ROLE = "monkeytype.tracing._has_code"
+
+
+def code_selector(repo: Repo, ctx: Optional[Ctx] = None) -> FunctionInfo:
+    """The function of tracing.py that selects a candidate by identity of its `__code__` with a given code object
+    (named `_has_code` on the pinned tree).  Located by name first and by *role* otherwise - a module-level function of
+    two positional parameters that reads `__code__` and compares with `is` - so that renaming the private helper is
+    followed.  Findings about it stay keyed by the role name."""
+    mod = repo.modules.get("monkeytype.tracing")
+    if mod is None:
+        raise AnalysisError("module monkeytype.tracing not found")
+    named = mod.functions.get("_has_code")
+    if named is not None:
+        return named
+    cands = []
+    for fi in mod.functions.values():
+        if fi.cls is not None or len(fi.positional_params()) != 2:
+            continue
+        reads = any((isinstance(x, ast.Attribute) and x.attr == "__code__") or (isinstance(x, ast.Constant) and x.value == "__code__") for x in ast.walk(fi.node))
+        ident = any(isinstance(x, ast.Compare) and any(isinstance(o, ast.Is) for o in x.ops) for x in ast.walk(fi.node))
+        if reads and ident:
+            cands.append(fi)
+    if len(cands) != 1:
+        raise AnalysisError(f"anchor function monkeytype.tracing._has_code not found (and {len(cands)} functions play its role)")
+    if ctx is not None:
+        ctx.alias[cands[0].fq] = SELECTOR_ROLE
+        ctx.note(f"{cands[0].fq} located by role (selects a candidate by `__code__ is code`); findings keyed as {SELECTOR_ROLE}")
+    return cands[0]
+
+
 # ---------------------------------------------------------------------------
 # Abstract interpretation of repository functions
 # ---------------------------------------------------------------------------
@@ -428,6 +458,19 @@ class RepoInterp:
                     dropping = False
                     out_seq.append(x)
             return K(tuple(out_seq))
+        if fname in ("functools.reduce", "reduce") and 2 <= len(call.args) <= 3 and len(args) == len(call.args) and not kwargs:
+            seq = it.iterate(args[1], st)
+            if seq is None:
+                return None
+            if not seq and len(args) < 3:
+                st.pending = st.pending or "TypeError"
+                return U("reduce of an empty sequence")
+            acc_r: Optional[V] = args[2] if len(args) > 2 else seq[0]
+            for x in (seq if len(args) > 2 else seq[1:]):
+                acc_r = self.apply_callable(call.args[0], [acc_r, x], st)  # type: ignore[list-item]
+                if acc_r is None or st.pending is not None:
+                    return acc_r
+            return acc_r
         if fname in ("all", "any") and len(args) == 1:
             seq = it.iterate(args[0], st)
             if seq is not None and all(isinstance(x, K) for x in seq):
@@ -549,6 +592,17 @@ class RepoInterp:
             priv_cls = self.repo.resolve_class(self.cur_fi.module, call.func.id)
             if priv_cls is not None and (self._nt_fields(priv_cls) is not None or priv_cls.bases and any(b.split(".")[-1] not in ("object",) for b in priv_cls.bases)):
                 priv_cls = None  # only base-less private classes
+        if self.heap and isinstance(call.func, ast.Name) and isinstance(fval, S) and fval.name.startswith("class:") and call.func.id in st.env:
+            # cls(...) inside a classmethod of a private base-less helper class (or a local alias of the class)
+            mn_p, _, cn_p = fval.name[len("class:"):].rpartition(".")
+            ci_p = self.repo.cls(mn_p, cn_p, required=False)
+            if ci_p is not None and cn_p.split(".")[-1].startswith("_") and self._nt_fields(ci_p) is None \
+                    and not any(b.split(".")[-1] not in ("object",) for b in ci_p.bases):
+                obj_p = st.alloc("obj", {"__class__": K(ci_p.fq)})
+                init_p = self.repo.method(ci_p, "__init__")
+                if init_p is not None:
+                    self.inline_call(init_p, call, obj_p, args, kwargs, st)
+                return obj_p
         if (self.construct_instances or priv_cls is not None) and isinstance(call.func, ast.Name) and not isinstance(fval, (R, Ref)):
             ci_new = self.repo.resolve_class(self.cur_fi.module, call.func.id)
             if ci_new is not None and self.repo.method(ci_new, "__init__") is None:
